@@ -153,6 +153,9 @@ def connect_body(k, world):
     k.requires = lambda c: dict(base_req(c), **{
         'dom.namespaces-given-as-a-string-or-a-list': z3.Or(smt.kind(c.a.namespaces) == smt.K_STR, smt.kind(c.a.namespaces) == smt.K_LIST),
         'dom.no-retry': z3.Not(smt.truthy(c.a.retry)),
+        # between connection attempts a client that is not connected has no namespace left (every exit of connect() and every
+        # packet handler re-establishes it; assumed here, it is what makes the reset at the top of connect() redundant)
+        'assume:not-connected-means-no-namespace-left': z3.Implies(z3.Not(connected(c.pre)), nss(c.pre).c['dom'] == z3.K(V, z3.BoolVal(False))),
         'dom.no-star-namespace': z3.Not(requested(c, c13.STAR)),
         'dom.no-star-namespace-connected': z3.Not(nss(c.pre).c['dom'][c13.STAR]), 'dom.namespaces-truthy': z3.Not(nss(c.pre).c['dom'][NONE])})
     k.cases = [
